@@ -629,7 +629,13 @@ class Interp(seq_detached.DetachedMixin, S.SeqRun):
         e = ents[a % len(ents)]
         ra = [x for x in e.to_ones() if x.required and self.schema.by_name[x.rel].auto_pk][0]
         stored = [o for o in self.live_sorted(ra.rel) if o.stored and o.pk is not None]
+        self.refresh_pks()      # keys handed out by a flush Pony made on its own (before a query) count as known
         known = [o.pk[0] for o in self.view.objs.values() if o.ent == ra.rel and o.pk is not None]
+        cache = self.cache()
+        if cache is not None:
+            # ... and so does every key in the identity map (e.g. of an object deleted in this session)
+            R = self.E[ra.rel]
+            known += [k for k in cache.indexes.get(R._pk_attrs_, {}) if isinstance(k, int)]
         kw = self.scalar_kwargs(e, b, c)
         P = self.E[e.name]
         if stored and c % 2 == 0:
